@@ -192,7 +192,11 @@ def main():
     # last good translation in place and is reported for the properties about the run-time behaviour
     try:
         import gen_util
-        write_if_changed(os.path.join(GEN, "GenUtil.v"), gen_util.generate(read("crates/lexgen_util/src/lib.rs")))
+        util_src = read("crates/lexgen_util/src/lib.rs")
+        write_if_changed(os.path.join(GEN, "GenUtil.v"), gen_util.generate(util_src))
+        if "clone" in gen_util.EXTRA_METHODS or not re.search(r"#\[derive\([^)]*\bClone\b[^)]*\)\]\s*pub struct Lexer\b", util_src):
+            status.setdefault("C15", "lexgen_util::Lexer is no longer cloned by #[derive(Clone)] (the model copies the "
+                                     "lexer value field by field)")
     except Exception as e:           # gencode.Untranslatable and parse errors alike
         for pr in ("C01", "C03", "C04", "C05", "C06", "C07", "C08", "C09", "C10", "C14", "C15"):
             status.setdefault(pr, "lexgen_util/src/lib.rs: %s" % e)
